@@ -397,6 +397,11 @@ func (s *State) addPC(c *Term) {
 		}
 		return
 	}
+	for _, p := range s.pc {
+		if p == c {
+			return
+		}
+	}
 	s.pc = append(s.pc, c)
 }
 
